@@ -19,8 +19,8 @@ try:
     subprocess.run(['patch', '-p1', '-s', '-i', '/verif/%s/%s/patch.diff' % (kind, name)], cwd=tmp, check=True)
     changed = subprocess.run('grep "^+++ b/" /verif/%s/%s/patch.diff | cut -c7-' % (kind, name), shell=True, capture_output=True, text=True).stdout.split()
     for rel in changed:
-        cur = ast.parse(open(os.path.join(tmp, rel)).read())
-        notes = normalise.apply(cur, rel)
+        os.environ['VERIF_NORM_CACHE'] = os.path.join(tmp, '.cache')
+        cur, notes = normalise.parse_normalised(open(os.path.join(tmp, rel)).read(), os.path.join(tmp, rel), rel)
         ref = ast.parse(open(os.path.join('/repo', rel)).read())
         print('==', rel)
         for n in notes:
